@@ -104,7 +104,11 @@ class TTestAnalysis:
                 accu.stop()
                 if accu._tstate_lock is not None:
                     if accu._tstate_lock.locked():
-                        accu._tstate_lock.release()
+                        try:
+                            accu._tstate_lock.release()
+                        except RuntimeError:
+                            # The thread ended after the check above and released its lock itself.
+                            pass
                 try:
                     accu.join()
                 except Exception:
